@@ -621,3 +621,44 @@ Example ex_stale_run :
   o_outcome (transfer ex_stale) = TOk [d2; f2] [] /\
   option_map (map fst) (w_dix (final_world ex_stale)) = Some [f2; d2].
 Proof. vm_compute. auto. Qed.
+
+(* a sharing chain A -f- B -g- C, the upload of f fails, processing order A, B, C: A and B are
+   withheld (B although f failed "with A"), B's own file g is still uploaded - B had claimed it -
+   and therefore C, which shares g, is complete and delivered *)
+Definition f3 : oid := [102; 51].
+Definition f4 : oid := [102; 52].
+Definition d3 : oid := [100; 51; 46; 100; 105; 114].
+Definition ch_parse (b : bytes) : option (list oid) :=
+  if list_N_eqb b [1] then Some [f1; f2]            (* A = d1 : a=f1, f=f2 *)
+  else if list_N_eqb b [2] then Some [f2; f3]       (* B = d2 : f=f2, g=f3 *)
+  else if list_N_eqb b [3] then Some [f3; f4]       (* C = d3 : g=f3, c=f4 *)
+  else None.
+Definition ex_chain : t_in :=
+  {| t_src := [(f1, [11]); (f2, [12]); (f3, [13]); (f4, [14]); (d1, [1]); (d2, [2]); (d3, [3])];
+     t_dst := []; t_cache := None; t_parse := ch_parse; t_corrupt := fun _ => false;
+     t_req := [d1; d2; d3]; t_shallow := false; t_verify := false;
+     t_dix := None; t_six := None; t_dnoop := false; t_snoop := false;
+     t_fails := fun o => list_N_eqb o f2; t_part := fun _ => false; t_trunc := fun _ => [];
+     t_dord := fun l => l; t_bord := fun l => l |}.
+Example ex_chain_wf : wf ex_chain.
+Proof.
+  constructor; unfold flat_parse, coherent, ix_sound, closed_request, status_cache, trunc_unparsable; simpl.
+  - intros l o; tauto.
+  - intros l o; tauto.
+  - intros b l f H Hf. revert H. unfold ch_parse.
+    repeat (match goal with |- context [if ?c then _ else _] => destruct c end;
+            [intros H; inversion H; subst; simpl in Hf; destruct Hf as [<-|[<-|[]]]; reflexivity|]).
+    discriminate.
+  - split; intros D b1 b2 H1 H2; simpl in *; [congruence|discriminate].
+  - intros D l f H. unfold listing in H. simpl in H. destruct (is_dir_oid D); discriminate.
+  - exact I.
+  - left. reflexivity.
+  - intros o _. reflexivity.
+Qed.
+Example ex_chain_run :
+  filter is_store_event (o_events (transfer ex_chain)) =
+    [Put f1 true; Put f2 false; Put f3 true; Put f4 true; Put d3 true] /\
+  (exists tr, o_outcome (transfer ex_chain) = TOk tr [d2; f2; d1; f2]) /\
+  forallb (has (dst_after ex_chain)) [f1; f3; f4; d3] = true /\
+  has (dst_after ex_chain) d1 = false /\ has (dst_after ex_chain) d2 = false.
+Proof. vm_compute. repeat split; eauto. Qed.
